@@ -8,6 +8,8 @@ import Rc.Drv.C11
 import Rc.Drv.C15
 import Rc.Drv.C17
 import Rc.Drv.C19
+import Rc.Drv.C13
+import Rc.Drv.C04
 import Rc.Drv.C18
 
 def dispatch (prop : String) : Option (List String → String) :=
@@ -17,6 +19,8 @@ def dispatch (prop : String) : Option (List String → String) :=
   | "C15" => some Rc.Drv.C15.handle
   | "C17" => some Rc.Drv.C17.handle
   | "C19" => some Rc.Drv.C19.handle
+  | "C13" => some Rc.Drv.C13.handle
+  | "C04" => some Rc.Drv.C04.handle
   | "C18" => some Rc.Drv.C18.handle
   | _ => none
 
